@@ -57,7 +57,7 @@ type c13Obj struct {
 }
 
 func c13HostStruct() c13Host {
-	return c13Host{N: 2, L: []float64{1, 2}, O: c13Obj{"x", 1}, M: map[string]float64{"a": 1, "b": 2, "c": 3}}
+	return c13Host{N: 2, L: []float64{1, 1, 2, 3, 3, 2}, O: c13Obj{"x", 1}, M: map[string]float64{"a": 1, "b": 2, "c": 3}}
 }
 
 func c13HostMap() map[string]interface{} {
@@ -68,7 +68,7 @@ func c13HostMap() map[string]interface{} {
 func c13Spec() real.EnvSpec {
 	return real.EnvSpec{Rep: "raw", Binds: []real.Binding{
 		{Name: "n", V: ref.NumV(2)},
-		{Name: "l", V: ref.ListV(gen.Num, nums(1, 2)...)},
+		{Name: "l", V: ref.ListV(gen.Num, nums(1, 1, 2, 3, 3, 2)...)},
 		{Name: "o", V: oba(1, "x")},
 		{Name: "m", V: ref.MapV(gen.Str, gen.Num, ref.StrV("a"), ref.NumV(1), ref.StrV("b"), ref.NumV(2), ref.StrV("c"), ref.NumV(3))},
 	}}
